@@ -244,6 +244,13 @@ def run_chunk(binary, run, seed, lo, hi, outbase, res, prop, env_extra=None):
         if done and not timed_out and (rc == 0 or (run.get("tsan") and rc == 66)):
             return  # 66 = ThreadSanitizer's exit code when it reported something; the log is parsed later
         failed_case = _prog_case(out, cur)
+        if rc == 99 and not timed_out:
+            # a spin monitor reported its violation and ended the process because the case could not be brought
+            # to an end: nothing crashed, go on with the next case
+            with res.lock:
+                res.add_cnt("runner/cases_ended_by_spin_monitor", 1)
+            cur = failed_case + 1
+            continue
         if timed_out:
             # re-run the single case once; a reproducible hang is a verdict, a one-off is not
             out2 = out + ".retry"
